@@ -507,6 +507,7 @@ static void run_case(vh_ctx *c)
 {
   gcase g;
   size_t n, p, ny, nlv, nlv2;
+  libsci_verif_nprocs = (c->idx & 1) ? 1 : 0;      /* the machine may report a single processor (H1): PLS must not care */
 
   gen_case(c, &g, 12, 4, 1e4);
   n = g.n; p = g.p; ny = g.ny;
